@@ -78,6 +78,7 @@ CHECKS["C02"] = dict(
     stages=[dict(harness="hist", variant="plain", args=["--mode", "wellformed"]),
             dict(harness="blk", variant="asan", args=["--mode", "direct"], prefix="direct_"),
             dict(harness="val", variant="asan", args=["--mode", "align"], prefix="align_"),
+            dict(harness="comp", variant="plain", args=["--mode", "export-wellformed"], prefix="bigz_", require=["export_runs", "export_records_validated"]),   # large gzip / xz outputs (the codecs emit while data still arrives), decompressed and validated
             dict(harness="ser", variant="asan", args=["--mode", "wellformed"], prefix="ser_"),
             dict(harness="hist", variant="plain", args=["--mode", "wellformed", "--bfs", "7", "--abstract", "1"], prefix="bfs_", tiers=("quick",)),
             dict(harness="hist", variant="plain", args=["--mode", "wellformed", "--bfs", "9", "--abstract", "1"], prefix="bfs_", tiers=("thorough",))],
@@ -95,6 +96,7 @@ CHECKS["C10"] = dict(
             dict(harness="hist", variant="plain", args=["--mode", "counts"]),
             dict(harness="blk", variant="asan", args=["--mode", "direct"], prefix="direct_"),
             dict(harness="val", variant="asan", args=["--mode", "align"], prefix="align_"),
+            dict(harness="comp", variant="plain", args=["--mode", "export-counts"], prefix="bigz_", require=["export_runs"]),   # large gzip / xz outputs: returned counts vs decompressed size
             dict(harness="ser", variant="asan", prefix="ser_")],
     rule="E-ENC traces (see C06) + stateless DFS over 10 exporter operations x {memory, gzip, descriptor, named file, descriptor with short writes} sinks x 3 parameter configurations (collection parameters full / present-but-empty / one member) + E-SER: each of the 20 serialisable structures x every subset of its optional members (<= 12 selector bits: all subsets; 16-17: empty, full, singles, pairs, complements; thorough: all 2^17) x {small, widest} values x fill levels of the encoder buffer, returned value vs. measured growth of the output",
     bound_quick="exporter histories of length <= 3; encoder: as C06 quick", bound_thorough="exporter histories of length <= 4 (+xz, gzip file); encoder: as C06 thorough",
@@ -231,8 +233,9 @@ CHECKS["C15"] = dict(
     technique="exhaustive crash-point enumeration on the implementation: the process is killed immediately before every output-related system call (write, writev, rename) of each scenario, with the calls interposed in the harness executable",
     level_text="30 scenarios ({plain, gzip, xz} x {single output closed by destruction; three rotations with and without export; rotation onto a name that already holds an older complete file; rotation back onto the first name; destruction with buffered but unwritten data; destruction with nothing written; high-entropy records (the compressor holds several KB at close, finishing takes several passes); stale '.part' files left by a dead run}), records of 3 KB so that blocks span several encoder flushes and the ofstream buffer spills mid-block. A trace run records the K output calls; for every k in 1..K a forked child runs the scenario and _exits immediately before its k-th call; afterwards every directory entry not ending in .part must be byte-identical to one of the complete versions that name legitimately holds (the pre-existing file or a closed output of the uninterrupted run, each validated as a complete stream and valid C-DNS file). The trace run also checks that every data write targets a *.part path.",
     level_note="Crash model = process death between system calls (the property's model); no power loss / page cache reasoning. Trusted: path of a descriptor read from /proc/self/fd at call time; write/writev/rename are the only output calls libstdc++ and the library issue (verified by the trace containing all bytes).",
-    stages=[dict(harness="fault", variant="plain", args=["--mode", "crash"], link=["-rdynamic"], require=["gz_finish_multipass", "xz_finish_multipass"])],
-    rule="(scenario, k) pairs enumerated exhaustively; a run is non-trivial when the child really stopped at call k (exit code 77), otherwise it is reported as a harness error",
+    stages=[dict(harness="fault", variant="plain", args=["--mode", "crash"], link=["-rdynamic"], require=["gz_finish_multipass", "xz_finish_multipass"]),
+            dict(harness="val", variant="asan", args=["--mode", "align", "--named", "1"], prefix="named_")],
+    rule="named-output alignment sweep (no crash, the k = K+1 case of every size): a padding string of every length 0..2100 (thorough 0..4199) x {plain, gzip} moves the end of a rotated and of a destroyed output across every position of the encoder's 2 KiB staging buffer; what is visible under the final names must be complete valid files (closing break included), nothing else may be left in the directory. (scenario, k) pairs enumerated exhaustively; a run is non-trivial when the child really stopped at call k (exit code 77), otherwise it is reported as a harness error",
     bound_quick="all 30 scenarios, every k", bound_thorough="same (the space is small and fully covered in the quick tier)",
     assumptions=["tmpfs scratch directory"],
 )
@@ -252,8 +255,8 @@ ENGINES.append(dict(name="E-FAULT", path="harness/fault.cpp", serves_properties=
 _TOOLS = ["cdns-merge", "cdns-itemcount", "cdns-blocks", "cdns-items", "cdns-preamble"]
 CHECKS["C18"] = dict(
     level="exploration", engine="E-CLI",
-    technique="exhaustive enumeration of argument tuples on the real tool binaries: every tuple of 1..3 inputs over a pool of 16 files through cdns-merge, cdns-itemcount with every option combination, compared with the independent reader",
-    level_text="Pool: A (1 parameter set, 10^6 ticks, 3 blocks), B (2 sets, 10^3 ticks, reduced hints, collection parameters, 4 blocks alternating sets), C (10^9 ticks, all QR hints off, statistics), D (minor version differs), E (private version differs), G (300 non-C-DNS bytes), H (B cut inside its 2nd block), I (valid, zero blocks), J (10^9 ticks, blocks without block-parameters-index), K (A with two empty blocks), Z (missing path). All 16+256+4096 tuples (+ one tuple of 142 inputs whose 280 distinct parameter sets push the merged file's block-parameters indices beyond 8 bits) are merged by the real cdns-merge (ASan/UBSan build); expected blocks = non-empty blocks of every input that is C-DNS and version-equal to the first readable one, up to its first error, in order; the output must validate, hold exactly those blocks with records, statistics, earliest time and absolute times unchanged, and each block's parameter set in the output preamble must equal the one it had in its source; with no contributing block the output must be empty. cdns-itemcount (-b, -p, both, none) on every valid input and merged output must print the counts of the independent parse.",
+    technique="exhaustive enumeration of argument tuples on the real tool binaries: every tuple of 1..3 inputs over a pool of 17 files through cdns-merge, cdns-itemcount with every option combination, compared with the independent reader",
+    level_text="Pool: A (1 parameter set, 10^6 ticks, 3 blocks), B (2 sets, 10^3 ticks, reduced hints, collection parameters, 4 blocks alternating sets), C (10^9 ticks, all QR hints off, statistics), D (minor version differs), E (private version differs), G (300 non-C-DNS bytes), H (B cut inside its 2nd block), I (valid, zero blocks), J (10^9 ticks, blocks without block-parameters-index), K (A with two empty blocks), L (no private version), M / N (an address-event key listed twice, other / same count), O (B with a repeated address-table entry), P (A with an empty block first), Q (B with every string stored in chunks), Z (missing path). All 17+289+4913 tuples (+ one tuple of 142 inputs whose 280 distinct parameter sets push the merged file's block-parameters indices beyond 8 bits) are merged by the real cdns-merge (ASan/UBSan build); expected blocks = non-empty blocks of every input that is C-DNS and version-equal to the first readable one, up to its first error, in order; the output must validate, hold exactly those blocks with records, statistics, earliest time and absolute times unchanged, and each block's parameter set in the output preamble must equal the one it had in its source; with no contributing block the output must be empty. cdns-itemcount (-b, -p, both, none) on every valid input and merged output must print the counts of the independent parse.",
     level_note="Trusted: ref/ reader for inputs and outputs; integers are extracted from the tools' stdout without relying on the free-text layout. The other inspection tools are covered for safety by C03's tools stage.",
     stages=[dict(harness="cli", variant="asan", args=["--mode", "merge"], tools=["cdns-merge", "cdns-itemcount"])],
     rule="tuples enumerated exhaustively (order matters, repetition allowed); every tuple is a distinct real tool run; non-trivial: all",
